@@ -19,7 +19,7 @@ RULE = ('histories of 0-5 earlier result groups (built with raw h5py) over datas
         'dataset name); then a Process is constructed and compute(override) is run; non-trivial = at least one prior '
         'group whose name contains the dataset and tool text')
 DSETS = ['Raw', 'Raw_Data', 'Data', 'aw']
-TOOLS = ['Fit', 'Fitter', 'it', 'Fit_x']
+TOOLS = ['Fit', 'Fitter', 'it', 'Fit_x', 'Fit_2']
 BASE_PARMS = {'a': 1, 'b': 'x', 'c': [1, 2, 3], 'd': 2.5}
 PROGRESS = ['complete', 'partial', 'partial', 'legacy-complete', 'legacy-partial', 'neither', 'wrong-dtype',
             'wrong-length', 'rank2', 'not-dataset', 'values-2', 'complete', 'partial']
